@@ -114,7 +114,7 @@ type CaseResult struct {
 	Sample       interface{}         `json:"sample,omitempty"`
 	Violations   []Violation         `json:"violations,omitempty"`
 	Inconclusive []string            `json:"inconclusive,omitempty"`
-	Fatal        string              `json:"fatal,omitempty"` // harness fault
+	Fatal        string              `json:"fatal,omitempty"`   // harness fault
 	Recycle      bool                `json:"recycle,omitempty"` // a goroutine of this case may still be running: the child process ends after it
 }
 
